@@ -51,6 +51,7 @@ type propSpec struct {
 	Thorough []string
 	Special  string
 	Situ     string // in-situ monitor run on a wrap-instrumented second copy (field|digits|lattice)
+	Thresh   bool   // coverage-guided size-threshold discovery (drv/thresh, built with -cover) for this property's operations
 	TimeoutS int
 	Assume   []string
 	Workers  int // 0 = auto
@@ -67,6 +68,8 @@ var builds = map[string]buildSpec{
 	// the amd64 micro-architecture level is a build-time choice that selects other instruction sequences in the
 	// compiler's output and in hand-written assembly guarded by GOAMD64_v3
 	"v3": {Name: "v3", Env: []string{"GOAMD64=v3"}},
+	// the library's own backend override on a 32-bit target: 64-bit limb code with a 32-bit native int
+	"i386f64": {Name: "i386f64", Tags: []string{"force64bit"}, Env: []string{"GOARCH=386"}},
 }
 
 var configs = map[string]configSpec{
@@ -78,6 +81,7 @@ var configs = map[string]configSpec{
 	"racepurego": {Name: "racepurego", Build: "racepurego"},
 	"i386":       {Name: "i386", Build: "i386"},
 	"v3":         {Name: "v3", Build: "v3"},
+	"i386f64":    {Name: "i386f64", Build: "i386f64"},
 	// every optional CPU feature reported as absent (AVX2 and BMI2, ADX, ... alike)
 	"nocpu": {Name: "nocpu", Build: "default", Env: []string{"GODEBUG=cpu.all=off"}},
 	// scheduling-dependent code sees other numbers of Ps (values that do not divide powers of two included)
@@ -477,6 +481,13 @@ func check(spec propSpec, tier string, seed int64, replayFile string) int {
 			die(2, "HARNESS-ERROR build: %v", err)
 		}
 		outs = runSitu(c, spec.Situ, []string{base})
+	case replayFile != "" && strings.HasSuffix(replayViolation(replayFile).Config, "+thresh") && spec.Thresh:
+		base := strings.TrimSuffix(replayViolation(replayFile).Config, "+thresh")
+		if _, ok := configs[base]; !ok {
+			base = "avx2"
+		}
+		abs, _ := filepath.Abs(replayFile)
+		outs = runThresh(c, []string{base}, abs)
 	case replayFile != "" && spec.Special == "c08":
 		v := replayViolation(replayFile)
 		var cs struct {
@@ -563,6 +574,9 @@ func check(spec propSpec, tier string, seed int64, replayFile string) int {
 	}
 	if spec.Situ != "" && replayFile == "" && os.Getenv("VERIF_NO_SITU") == "" {
 		outs = append(outs, runSitu(c, spec.Situ, cfgNames)...)
+	}
+	if spec.Thresh && replayFile == "" && os.Getenv("VERIF_NO_THRESH") == "" {
+		outs = append(outs, runThresh(c, []string{"avx2", "purego"}, "")...)
 	}
 	if spec.Special == "c06" && replayFile == "" && (tier == "thorough" || os.Getenv("VERIF_C06_REACH") != "") {
 		c.extra = map[string]any{"reach_meter": reachMeter(c)}
@@ -845,7 +859,7 @@ func replayConfig(file string) string {
 	}
 	json.Unmarshal(b, &f)
 	cn := f.Violation.Config
-	for _, suf := range []string{"+situ", "+blocks"} {
+	for _, suf := range []string{"+situ", "+blocks", "+thresh"} {
 		cn = strings.TrimSuffix(cn, suf)
 	}
 	if _, ok := configs[cn]; !ok {
